@@ -92,7 +92,10 @@ fn craft_multi_container_file(r: &mut Rng) -> Vec<u8> {
         for j in 0..n { let m = *r.pick(&pool); index.push_str(&format!("{} {} ", m, body.len())); body.extend_from_slice(format!("(c{} i{} n{}) ", cnum, j, m).as_bytes()); holders.entry(m).or_default().push((cnum, j as u16)); }
         let first = index.len(); let mut content = index.into_bytes(); content.extend_from_slice(&body);
         offs.push(f.len());
-        f.extend_from_slice(format!("{} 0 obj\n<</Type/ObjStm/N {}/First {}/Length {}>>\nstream\n", cnum, n, first, content.len()).as_bytes());
+        // every fourth container carries the `n 0 obj` header of an EARLIER container (or an unrelated number): the cross-reference
+        // key under which a container is listed, not the number in its header, is what orders the merge
+        let hnum = if ci > 0 && r.chance(1, 4) { if r.chance(3, 4) { 2 + r.usize(ci) as u32 } else { 30 + r.below(5) as u32 } } else { cnum };
+        f.extend_from_slice(format!("{} 0 obj\n<</Type/ObjStm/N {}/First {}/Length {}>>\nstream\n", hnum, n, first, content.len()).as_bytes());
         f.extend_from_slice(&content); f.extend_from_slice(b"\nendstream\nendobj\n");
     }
     let xnum = 2 + k as u32; let xoff = f.len();
